@@ -15,6 +15,7 @@ import (
 	"encoding/binary"
 	"encoding/pem"
 	"fmt"
+	"math/big"
 	"os"
 	"strings"
 	"sync"
@@ -1003,8 +1004,12 @@ func c10AbePkiExtras(k, other *c10AbePkiKey, pub, asPem bool) []kit.Named {
 	bits := func(b []byte) asn1.BitString { return asn1.BitString{Bytes: b, BitLength: 8 * len(b)} }
 	unknown := asn1.ObjectIdentifier{1, 2, 3, 4}
 	rsaOid := asn1.ObjectIdentifier{1, 2, 840, 113549, 1, 1, 1}
-	ecKey, err := ecdsa.GenerateKey(elliptic.P256(), verifmc.NewDetReader("c10/pki/ecdsa"))
-	c10Must(err)
+	// not ecdsa.GenerateKey: it consumes a random number of bytes (randutil.MaybeReadByte), so even a
+	// deterministic reader gives one of two keys
+	ecKey := new(ecdsa.PrivateKey)
+	ecKey.Curve = elliptic.P256()
+	ecKey.D = new(big.Int).SetBytes(c10Shake("pki/ecdsa-d", 31))
+	ecKey.X, ecKey.Y = elliptic.P256().ScalarBaseMult(ecKey.D.Bytes())
 	ecSpki, err := x509.MarshalPKIXPublicKey(&ecKey.PublicKey)
 	c10Must(err)
 	ecP8, err := x509.MarshalPKCS8PrivateKey(ecKey)
